@@ -38,12 +38,19 @@ def gen_obj(rng, dim):
 	return spec, f
 
 
-def gss_case(rep, drv, rng):
+def gss_case(rep, drv, rng, fixed=None):
 	from stockpyl.optimization import golden_section_search
 	spec, fv = gen_obj(rng, 1)
 	kind = rng.choice(['normal', 'normal', 'normal', 'reversed', 'degenerate', 'tiny', 'wide-fine'])
 	a = F(rng.randint(-20, 60), 2); b = a + F(rng.randint(1, 80), 2)
 	tol = rng.choice([1e-5, 1e-3, 1e-2, 0.5])
+	if fixed:
+		# corpus: a kink that is thousands of times steeper on one side than on the other, a loose tolerance, the minimiser anywhere inside
+		kind = 'steep-one-side'
+		pp_, hh_, tt_ = fixed
+		spec = {'type': 'pwl', 'p': [fr(F(pp_))], 'h': [fr(F(hh_))], 't': [fr(F(tt_))]}
+		fv = lambda x, pp_=float(pp_), hh_=float(hh_), tt_=float(tt_): max(pp_ * (tt_ - x[0]), hh_ * (x[0] - tt_))
+		a, b, tol = F(0), F(100), 0.5
 	if kind == 'wide-fine':
 		# a wide interval with a fine tolerance (many halving steps); a piecewise-linear objective resolves its minimiser far below tol
 		while spec['type'] != 'pwl':
@@ -380,6 +387,9 @@ def run(rep, drv):
 				'x*, f(x*) and evaluation count vs the exact-rational model; enumeration on 1-4 node serial networks with explicit / (lo,hi,step) / (lo,hi,num) / '
 				'default grids and groups; coordinate descent; grids. non-trivial = more than one candidate / non-degenerate interval')
 	rng = random.Random(rep.seed + 19)
+	for m_ in range(3, 98, 5):
+		for pp_, hh_ in ((5000, 1), (1, 5000), (300, 1)):
+			gss_case(rep, drv, random.Random(m_), fixed=(pp_, hh_, F(m_) + F(3, 8)))
 	for k in range(2000 if th else 300):
 		gss_case(rep, drv, rng)
 	for k in range(800 if th else 150):
